@@ -16,7 +16,8 @@ RULE = ("exhaustive: attempts 1..A x every outcome sequence of that length over 
         "of inner invocations, the sleeps and the outcome (first ok result by identity / final attempt's exception "
         "object by identity); arguments must reach the inner method unchanged each time. Invalid configurations must "
         "raise at construction; neighbouring valid ones must not. The same table is run over pymemcache's own exception hierarchy (MemcacheError, MemcacheClientError, MemcacheIllegalInputError, MemcacheServerError, MemcacheUnexpectedCloseError, MemcacheUnknownCommandError) and socket.timeout / ConnectionResetError / KeyError: no class is treated specially. The table is also run with the call made from inside an `except` block of the caller, for each class being handled there (the implicit exception context is not part of the outcome of the wrapped call). A wrapped call that succeeds with an exception INSTANCE as its return value (of any of the classes, under every filter pair) has succeeded: returned unchanged, not retried. So has one that returns a list of refused keys, an empty or partial dict, False, None, 0 or a pair of Nones - under the multi-key and single-key method names of the client API alike. Wrapped instances: three RetryingClients alive at once around different instances of one class whose operations are instance attributes (name sets differing from instance to instance), every offered operation called through every wrapper in both orders - the same reference decides, and dir() of the wrapper lists the operation. Non-trivial: >=2 invocations were needed or a filter "
-        "stopped a retry. Filter spellings also include every class named twice and the aliases of OSError (socket.error, IOError, EnvironmentError) next to it. Around the library's own clients (plain, pooled, hash, ElastiCache, subclassed): 15 public spellings of commands (the *_multi aliases among them) x 7 filters x attempts 1-3, the first attempt failing before anything is sent. Calls in flight together on one RetryingClient - one started from inside the other, or two threads whose attempts follow each other in every possible order - each have their own budget of attempts. Every argument may be passed by the name the wrapped method documents for it (raw_command(command=..., end_tokens=...) among them). Long lives: 2600 (thorough 70 000) calls on one RetryingClient, each needing retries: attempts, sleeps and results as for the first call.")
+        "stopped a retry. Filter spellings also include every class named twice and the aliases of OSError (socket.error, IOError, EnvironmentError) next to it. Around the library's own clients (plain, pooled, hash, ElastiCache, subclassed): 15 public spellings of commands (the *_multi aliases among them) x 7 filters x attempts 1-3, the first attempt failing before anything is sent. Calls in flight together on one RetryingClient - one started from inside the other, or two threads whose attempts follow each other in every possible order - each have their own budget of attempts. Every argument may be passed by the name the wrapped method documents for it (raw_command(command=..., end_tokens=...) among them). Long lives: 2600 (thorough 70 000) calls on one RetryingClient, each needing retries: attempts, sleeps and results as for the first call."
+        + ' Exceptions with two bases (one in each filter), classes matched by ABC registration, and two different classes of one name in the two filters.')
 MANIFEST = {
     "category": "exploration",
     "technique": "bounded-exhaustive enumeration of the retry decision table against a reference loop written from the statement (model-based oracle), plus enumerated invalid/valid configurations",
